@@ -40,6 +40,28 @@ Aliasing.  Arrays are values in Lean.  A may-alias analysis (name = name, list.a
 read later (or anywhere in an enclosing loop).  Parameters are assumed not to alias each other (gufunc buffers).
 
 Unsupported constructs raise `base.Unsupported` -> `FAILED <module>: reason`, exit 1.
+
+Instrumentation mode (kernels declared `safe=True`; class `SafeW`, a subclass of `py2lean_num.SafeMixin` mixed in front of `W`):
+IN ADDITION to the ordinary module a second module `Hdc/Gen/Safe<Name>.lean`, namespace `Hdc.Gen.Safe`: the same statements plus
+the flag `bad : Bool` (declared first), `bad := (bad || c1 || ...)` before every statement, result `(<ordinary result>, bad)`.
+The checks are computed from the PYTHON AST (types / terms of sub-expressions through `W.ex`), in evaluation order:
+  * `oob a.size i`                 every integer subscript `a[i]` (read or store; also on a list of lists: `l[i][j]`, `l[i, j]` give
+                                   `oob l.size i` and `oob (rdA l i).size j`)                                   [Hdc/PySafe.lean]
+  * `badSlice a.size lo hi`        every slice `a[lo:hi]` (read or store) unless `0 <= lo <= hi <= len a` (`a[:]` never)
+  * `sliceLenNe lo hi b.size`      a slice store `a[lo:hi] = b` of an array with `len b != hi - lo`               [Hdc/PySafeW.lean]
+  * `lenNe a.size b.size`          every NumPy operation on two arrays whose lengths must agree: `a ∘ b` (arithmetic, comparison),
+                                   `np.where(c, a, b)`, `a[mask]`, `a[mask] = c`, `a[:] = b[:]`, `np.round(z, 0, out)`
+                                   (flagged whenever the lengths DIFFER: NumPy raises, except that it broadcasts a length-1 array,
+                                   which the combinators of PyNpW.lean do not model)
+  * `emptyArr a.size`              `np.max(a)` / `np.min(a)` of an empty array (ValueError)
+  * `decide (k < 0)`               `np.zeros(k)` / `np.ones(k)` with an integer expression `k` (not for `x.shape`)
+  * `eqv e2 (nat 0)`               every SCALAR division `e1 / e2` (`decide (k = 0)` for an `int` divisor; nothing for a non-zero
+                                   literal); array-valued divisions do not raise: not instrumented, listed in the header
+  * `(Gen.Safe.ws2d y s w).2`      every `ws2d` call (the call itself becomes `(Gen.Safe.ws2d y s w).1`)
+Every `Subscript`, `/` and `ws2d` node of a statement must have been visited by the check generator, otherwise
+`Unsupported("safe: ...")`; list comprehensions may not contain any of them.  NOT instrumented (NumPy does not raise / outside the
+scope): array-valued divisions, `np.sqrt` / `** 0.5` of a negative number, `np.median` of an empty array (nan), `np.array(l)` of a
+ragged list, the UnboundLocalError of a may-be-unbound local (that one is reported by the ordinary translation through `none`).
 """
 import ast
 import hashlib
@@ -59,11 +81,11 @@ KERNELS = [
     dict(name="ws2dwcv", file="hdc/algo/ops/ws2dwcv.py", func="ws2dwcv",
          params=[("y", "arrnum"), ("nodata", "num"), ("llas", "arrnum"), ("robust", "bool"), ("out", "arrnum"), ("lopt", "arrnum")],
          consts=GCV_CONSTS, locals={"robust_gcv": "arrarr"}, extra=GCV_EXTRA, ret=("out", "lopt"), uses="[IntCast α]",
-         imports=["Hdc.Gen.Ws2d", "Hdc.PyNpW"]),
+         imports=["Hdc.Gen.Ws2d", "Hdc.PyNpW"], safe=True, safe_imports=["Hdc.PySafeW", "Hdc.Gen.SafeWs2d"]),
     dict(name="ws2dwcvp", file="hdc/algo/ops/ws2dwcvp.py", func="ws2dwcvp",
          params=[("y", "arrnum"), ("nodata", "num"), ("p", "num"), ("llas", "arrnum"), ("robust", "bool"), ("out", "arrnum"), ("lopt", "arrnum")],
          consts=GCV_CONSTS, locals={"robust_gcv": "arrarr"}, extra=GCV_EXTRA, ret=("out", "lopt"), uses="[IntCast α]",
-         imports=["Hdc.Gen.Ws2d", "Hdc.PyNpW"]),
+         imports=["Hdc.Gen.Ws2d", "Hdc.PyNpW"], safe=True, safe_imports=["Hdc.PySafeW", "Hdc.Gen.SafeWs2d"]),
 ]
 
 ARR = ("arrnum", "arrint", "arrbool", "arrarr")
@@ -219,7 +241,7 @@ class W(base.K):
             y, s, w = (self.ex(x) for x in a)
             if (y.ty, w.ty) != ("arrnum", "arrnum") or s.ty not in ("num", "int"):
                 raise Unsupported("ws2d argument types")
-            return V("arrnum", f"(Gen.Ws2d.ws2d {y.term} {self.num(s)} {w.term})")
+            return V("arrnum", "(" + self.callee_term("ws2d", f"{y.term} {self.num(s)} {w.term}") + ")")
         if isinstance(f, ast.Name) and f.id == "len" and len(a) == 1:
             v = self.ex(a[0])
             if v.ty not in ARR:
@@ -910,6 +932,217 @@ class W(base.K):
         return "\n".join(self.lines)
 
 
+class SafeW(base.SafeMixin):
+    """instrumentation of the constructs `W` translates (see the module docstring); mixed in front of `W`"""
+
+    # `W.guarded(ind, fn)` (unbound guards of a statement) and `SafeMixin.guarded(g, c)` (a check under its guards) share a name
+    def guarded(self, a, b):
+        if callable(b):
+            return W.guarded(self, a, b)
+        return base.SafeMixin.guarded(self, a, b)
+
+    def tv(self, e):
+        """type and term of a sub-expression, through the translator (the numbering of bound variables is left alone)"""
+        n = self.nvar
+        try:
+            return self.ex(e)
+        finally:
+            self.nvar = n
+
+    def size_of(self, e):
+        return f"{self.tv(e).term}.size"
+
+    def ck(self, e, out, g=()):
+        if e is None or isinstance(e, (ast.Constant, ast.Name)):
+            return
+        if isinstance(e, ast.Attribute):
+            if np_attr(e, {"pi"}):
+                return
+            return self.ck(e.value, out, g)
+        if isinstance(e, ast.Subscript):
+            self.seen.add(id(e))
+            if isinstance(e.value, ast.Attribute) and e.value.attr == "shape":       # x.shape[0]: a tuple
+                if not (isinstance(e.slice, ast.Constant) and e.slice.value == 0):
+                    raise Unsupported("safe: shape index")
+                return self.ck(e.value.value, out, g)
+            self.ck(e.value, out, g)
+            v = self.tv(e.value)
+            if v.ty not in ARR:
+                raise Unsupported("safe: subscript of " + v.ty)
+            sl = e.slice
+            if isinstance(sl, ast.Slice):
+                if sl.step is not None:
+                    raise Unsupported("safe: slice step")
+                self.ck(sl.lower, out, g)
+                self.ck(sl.upper, out, g)
+                if sl.lower is None and sl.upper is None:
+                    return
+                for b in (sl.lower, sl.upper):
+                    if b is not None and self.tv(b).ty != "int":
+                        raise Unsupported("safe: slice bound")
+                if sl.upper is None:
+                    out.append(self.guarded(g, f"badSliceFrom {v.term}.size {self.tv(sl.lower).term}"))
+                else:
+                    lo = "(0 : Int)" if sl.lower is None else self.tv(sl.lower).term
+                    out.append(self.guarded(g, f"badSlice {v.term}.size {lo} {self.tv(sl.upper).term}"))
+                return
+            if isinstance(sl, ast.Tuple):
+                if v.ty != "arrarr" or len(sl.elts) != 2:
+                    raise Unsupported("safe: tuple index")
+                for x in sl.elts:
+                    self.ck(x, out, g)
+                i, j = (self.tv(x) for x in sl.elts)
+                if i.ty != "int" or j.ty != "int":
+                    raise Unsupported("safe: tuple index type")
+                out.append(self.guarded(g, f"oob {v.term}.size {i.term}"))
+                out.append(self.guarded(g, f"oob (rdA {v.term} {i.term}).size {j.term}"))
+                return
+            self.ck(sl, out, g)
+            i = self.tv(sl)
+            if i.ty == "int":
+                out.append(self.guarded(g, f"oob {v.term}.size {i.term}"))
+            elif i.ty == "arrbool" and v.ty == "arrnum":
+                out.append(self.guarded(g, f"lenNe {v.term}.size {i.term}.size"))
+            else:
+                raise Unsupported("safe: index of type " + i.ty)
+            return
+        if isinstance(e, ast.BinOp):
+            self.ck(e.left, out, g)
+            self.ck(e.right, out, g)
+            if isinstance(e.op, ast.Pow):
+                return                    # x ** 2, x ** 0.5, 10 ** x (the only forms translated): no exception
+            a, b = self.tv(e.left), self.tv(e.right)
+            if a.ty in ARR and b.ty in ARR:
+                out.append(self.guarded(g, f"lenNe {a.term}.size {b.term}.size"))
+            if isinstance(e.op, (ast.Div, ast.FloorDiv, ast.Mod)):
+                self.seen.add(id(e))
+                if a.ty in ("int", "num") and b.ty in ("int", "num"):
+                    if isinstance(e.right, ast.Constant) and isinstance(e.right.value, (int, float)) and not isinstance(e.right.value, bool):
+                        if e.right.value == 0:
+                            out.append(self.guarded(g, "true"))
+                    elif b.ty == "int":
+                        out.append(self.guarded(g, f"decide ({b.term} = (0 : Int))"))
+                    else:
+                        out.append(self.guarded(g, f"eqv {b.term} (nat 0)"))
+                elif a.ty in ARR or b.ty in ARR:
+                    self.array_divs.append(ast.unparse(e))          # NumPy array division: does not raise
+                else:
+                    raise Unsupported("safe: division of " + a.ty + " by " + b.ty)
+            return
+        if isinstance(e, ast.UnaryOp):
+            return self.ck(e.operand, out, g)
+        if isinstance(e, ast.Compare):
+            if len(e.ops) != 1:
+                raise Unsupported("safe: chained comparison")
+            self.ck(e.left, out, g)
+            self.ck(e.comparators[0], out, g)
+            a, b = self.tv(e.left), self.tv(e.comparators[0])
+            if a.ty in ARR and b.ty in ARR:
+                out.append(self.guarded(g, f"lenNe {a.term}.size {b.term}.size"))
+            return
+        if isinstance(e, ast.BoolOp):
+            gs = list(g)
+            for v in e.values:
+                self.ck(v, out, tuple(gs))
+                b = self.tv(v).term
+                gs.append(b if isinstance(e.op, ast.And) else f"(!{b})")
+            return
+        if isinstance(e, ast.List):
+            for x in e.elts:
+                self.ck(x, out, g)
+            return
+        if isinstance(e, ast.ListComp):
+            # the element expression runs once per cell: a check inside it would not be a scalar condition
+            for n in ast.walk(e.elt):
+                if isinstance(n, (ast.Subscript, ast.ListComp)) or (isinstance(n, ast.BinOp) and isinstance(n.op, (ast.Div, ast.FloorDiv, ast.Mod))) \
+                        or (isinstance(n, ast.Call) and isinstance(n.func, ast.Name) and n.func.id in self.callee_names()):
+                    raise Unsupported("safe: list comprehension with a subscript, a division or a kernel call")
+            if len(e.generators) != 1:
+                raise Unsupported("safe: list comprehension form")
+            return self.ck(e.generators[0].iter, out, g)
+        if isinstance(e, ast.Call):
+            f, a = e.func, e.args
+            if isinstance(f, ast.Attribute) and not (isinstance(f.value, ast.Name) and f.value.id == "np"):
+                self.ck(f.value, out, g)                       # x.sum(), l.append(x)
+            for x in a:
+                self.ck(x, out, g)
+            for kw in e.keywords:
+                self.ck(kw.value, out, g)
+            if isinstance(f, ast.Name) and f.id in self.callee_names():
+                self.seen.add(id(e))
+                if f.id != "ws2d":
+                    raise Unsupported("safe: callee " + f.id)
+                self._want = "2"
+                try:
+                    out.append(self.guarded(g, self.tv(e).term))
+                finally:
+                    self._want = "1"
+            elif np_attr(f, {"max", "min"}) and len(a) == 1:
+                out.append(self.guarded(g, f"emptyArr {self.size_of(a[0])}"))
+            elif np_attr(f, {"zeros", "ones"}) and len(a) == 1:
+                if not (isinstance(a[0], ast.Attribute) and a[0].attr == "shape"):
+                    k = self.tv(a[0])
+                    if k.ty != "int":
+                        raise Unsupported("safe: array size")
+                    out.append(self.guarded(g, f"decide ({k.term} < (0 : Int))"))
+            elif np_attr(f, {"where"}) and len(a) == 3:
+                c = self.tv(a[0])
+                for x in a[1:]:
+                    v = self.tv(x)
+                    if v.ty in ARR:
+                        out.append(self.guarded(g, f"lenNe {c.term}.size {v.term}.size"))
+            elif np_attr(f, {"round"}) and len(a) == 3:
+                out.append(self.guarded(g, f"lenNe {self.size_of(a[2])} {self.size_of(a[0])}"))
+            return
+        raise Unsupported("safe: " + type(e).__name__)
+
+    def stmt_checks(self, s):
+        out = []
+        self.seen = set()
+        if isinstance(s, ast.Assign):
+            if len(s.targets) != 1:
+                raise Unsupported("safe: chained assignment")
+            t = s.targets[0]
+            self.ck(s.value, out)
+            self.ck(t, out)
+            if isinstance(t, ast.Subscript) and not (isinstance(t.value, ast.Attribute)):
+                v = self.tv(s.value)
+                if isinstance(t.slice, ast.Slice):
+                    if v.ty in ARR:
+                        if t.slice.lower is None and t.slice.upper is None:
+                            out.append(f"lenNe {self.size_of(t.value)} {v.term}.size")          # a[:] = b
+                        elif t.slice.upper is not None:
+                            lo = "(0 : Int)" if t.slice.lower is None else self.tv(t.slice.lower).term
+                            out.append(f"sliceLenNe {lo} {self.tv(t.slice.upper).term} {v.term}.size")      # a[lo:hi] = b
+                        else:
+                            raise Unsupported("safe: store into a[lo:]")
+                elif v.ty in ARR:
+                    raise Unsupported("safe: array stored through an index")
+        elif isinstance(s, ast.For):
+            self.ck(s.iter, out)
+        elif isinstance(s, ast.If):
+            self.ck(s.test, out)
+        elif isinstance(s, ast.Expr):
+            self.ck(s.value, out)
+        elif not isinstance(s, (ast.Break, ast.Pass)):
+            raise Unsupported("safe: statement " + type(s).__name__)
+        # never skip silently: every subscript, division and kernel call the statement evaluates has been visited
+        for x in self.own_exprs(s):
+            for n in ast.walk(x):
+                if (isinstance(n, ast.Subscript) or (isinstance(n, ast.BinOp) and isinstance(n.op, (ast.Div, ast.FloorDiv, ast.Mod)))
+                        or (isinstance(n, ast.Call) and isinstance(n.func, ast.Name) and n.func.id in self.callee_names())) and id(n) not in self.seen:
+                    raise Unsupported("safe: not instrumented: " + ast.unparse(n))
+        return list(dict.fromkeys(out))
+
+    def st(self, s, ind):
+        if isinstance(s, ast.Expr) and isinstance(s.value, ast.Constant):
+            return super().st(s, ind)
+        cs = self.stmt_checks(s)
+        if cs:
+            self.emit(ind, "bad := (bad || " + " || ".join(f"({c})" for c in cs) + ")")
+        return super().st(s, ind)
+
+
 def module_of(cfg):
     return "Num" + cfg["name"].capitalize()
 
@@ -938,6 +1171,22 @@ def main(kernels=None, tool="py2lean_wcv"):
                     f"namespace Hdc.Gen.NumKernels\nopen Hdc Hdc.PyNpW\nvariable {{α : Type}} [Add α] [Sub α] [Mul α] [Div α] [Neg α] [NatCast α] [LT α] [DecidableLT α]\n\n"
                     f"/-- `{cfg['file']}::{cfg['func']}` -/\ndef {cfg['name']} {cfg['uses']} {cfg['extra']} {sig} : {rty} := Id.run do\n{body}\n\nend Hdc.Gen.NumKernels\n")
             base.write_if_changed(gen / f"{module}.lean", text)
+            if cfg.get("safe"):
+                module = base.safe_module_of(cfg)
+                mix = cfg.get("safe_mixin") or SafeW
+                ks = type("Safe" + W.__name__, (mix, W), {})(cfg, fn)
+                base.K.check_signature(ks)
+                body = ks.run()
+                imports = "".join(f"import {m}\n" for m in ["Hdc.Gen.NumBase", "Hdc.PySafe"] + cfg.get("imports", []) + cfg.get("safe_imports", []))
+                note = ("  Array-valued divisions (not instrumented): " + "; ".join(dict.fromkeys(ks.array_divs)) + ".") if ks.array_divs else ""
+                text = (f"{imports}/-\nGENERATED by harness/{tool}.py (instrumentation mode) from {cfg['file']}::{cfg['func']} (sha256 of the function source {sha}).  Do not edit.\n"
+                        f"The statements of `Hdc.Gen.NumKernels.{cfg['name']}` plus the flag `bad`: set when a subscript is outside `[-len, len)`, a slice is not\n"
+                        f"`0 <= lo <= hi <= len`, two arrays combined by a NumPy operation differ in length, `np.max` / `np.min` gets an empty array, a scalar\n"
+                        f"divisor is zero, or the instrumented `ws2d` sets its flag.{note}\n"
+                        f"Locals that may be unbound when read (reported through `none` in the first component, NOT through the flag): {', '.join(ks.maybe_unbound) or 'none'}.\n-/\n"
+                        f"namespace Hdc.Gen.Safe\nopen Hdc Hdc.PyNpW Hdc.Gen.NumKernels\nvariable {{α : Type}} [Add α] [Sub α] [Mul α] [Div α] [Neg α] [NatCast α] [LT α] [DecidableLT α]\n\n"
+                        f"/-- `{cfg['file']}::{cfg['func']}`, instrumented -/\ndef {cfg['name']} {cfg['uses']} {cfg['extra']} {sig} : ({rty}) × Bool := Id.run do\n{body}\n\nend Hdc.Gen.Safe\n")
+                base.write_if_changed(gen / f"{module}.lean", text)
         except (Unsupported, StopIteration, KeyError, IndexError, AttributeError, OSError, SyntaxError) as e:
             print(f"FAILED Hdc.Gen.{module}: unsupported construct in {cfg['func']}: {e!r}")
             rc = 1
